@@ -14,6 +14,50 @@ import KDVerif.Lemmas.MixCollate
 namespace KDVerif.C10
 open KDVerif.MixCollator
 
+/-! ### non-vacuity witness shared by the theorems below
+A concrete call with mixed cut-mix / mixup flags (lamb_mode=sample, roll, layout "index x class", B = 3, 4×4 images);
+each theorem is followed by its instance on this call. -/
+
+def exCfg : Cfg := ⟨1/2, 1/2, 1, some (4/5), some 1, .batch, .sample, .roll⟩
+def exImg (s : Nat) : Img := fun c r k => ((s * 1000 + c * 100 + r * 10 + k : Nat) : Rat)
+def exImgs : List Img := [exImg 0, exImg 1, exImg 2]
+def exRows : List (List Rat) := [[1, 0], [0, 1], [1, 0]]
+def exMode : List String := ["index", "x", "class"]
+def exBatch : List Item := [.other 7, .x 4 4 exImgs, .cls2 exRows]
+def exTape : Tape :=
+  [.unif (1/10), .unifs [1/4, 3/4, 1/3], .betas (4/5) [1/5, 2/5, 3/5], .betas 1 [1/2, 1/2, 1/2],
+   .ints 4 [1, 2, 3], .ints 4 [0, 1, 2]]
+def exHalves : List (Nat × Nat) := [(1, 1), (1, 1), (1, 1)]
+
+/-- the call succeeds, samples 0 and 2 are cut-mixed, sample 1 is mixed up, and the reported weights are the
+    retained fractions `7/8`, `3/4` and the Beta draw `2/5` -/
+theorem ex_values : (match collate exCfg exHalves exTape exMode exBatch with
+    | .ok o => o.ctxUseCutmix == [true, false, true] && o.ctxLambda == [7/8, 2/5, 3/4] && o.perm == none
+    | .error _ => false) = true := by decide +kernel
+
+theorem ex_ok : ∃ out, collate exCfg exHalves exTape exMode exBatch = .ok out := by
+  have h := ex_values
+  cases hc : collate exCfg exHalves exTape exMode exBatch with
+  | ok o => exact ⟨o, rfl⟩
+  | error e => rw [hc] at h; cases h
+
+theorem ex_tapeOk : TapeOk exTape := by
+  intro d hd
+  simp only [exTape, List.mem_cons, List.not_mem_nil, or_false] at hd
+  rcases hd with h | h | h | h | h | h <;> subst h <;> simp only [Draw.Ok, List.mem_cons, List.not_mem_nil, or_false]
+  · constructor <;> grind
+  · intro v hv; rcases hv with h | h | h <;> subst h <;> constructor <;> grind
+  · intro v hv; rcases hv with h | h | h <;> subst h <;> constructor <;> grind
+  · intro v hv; rcases hv with h | h | h <;> subst h <;> constructor <;> grind
+  · intro v hv; omega
+  · intro v hv; omega
+
+theorem ex_getX : getItem exMode "x" exBatch = some (.x 4 4 exImgs) := by decide +kernel
+theorem ex_getY : getItem exMode "class" exBatch = some (.cls2 exRows) := by decide +kernel
+theorem ex_totalP : 0 ≤ exCfg.totalP := by decide +kernel
+theorem ex_classMode : "class" ∈ exMode := by decide
+
+
 /-- **Partners stay inside the batch.** For every tape that satisfies the generator's contract the partner
     of every sample is a sample of the same batch (so no default value is ever read). -/
 theorem partner_in_range {cfg halves tape mode batch out h w imgs}
@@ -48,6 +92,12 @@ theorem partner_in_range {cfg halves tape mode batch out h w imgs}
 example : partnerSpec .roll 4 none 0 = 3 ∧ partnerSpec .flip 4 none 1 = 2 ∧
     partnerSpec .random 3 (some [2, 0, 1]) 1 = 0 ∧ partnerSpec .roll 1 none 0 = 0 := by decide
 
+
+example : ∃ out, collate exCfg exHalves exTape exMode exBatch = .ok out ∧
+    ∀ i, i < 3 → partnerSpec exCfg.shuffle 3 out.perm i < 3 := by
+  obtain ⟨out, h⟩ := ex_ok
+  exact ⟨out, h, fun i hi => partner_in_range h ex_getX ex_tapeOk i hi⟩
+
 /-- **The partner follows the configured shuffle mode** (this is what `partnerSpec` says, spelled out):
     a single-sample batch is mixed with itself, `roll` pairs `i` with `i-1` (cyclically), `flip` pairs `i`
     with `B-1-i` and is only accepted for even `B`, `random` pairs `i` with entry `i` of the permutation that
@@ -81,6 +131,12 @@ theorem partner_follows_shuffle_mode {cfg halves tape mode batch out h w imgs}
     obtain ⟨l, hl, hperm⟩ := f.perm_ok hok hB hs
     rw [r.perm]
     exact ⟨l, hl, hperm, fun i => by simp [partnerSpec, hB, hs, hl]⟩
+
+
+example : ∃ out, collate exCfg exHalves exTape exMode exBatch = .ok out ∧
+    ∀ i, partnerSpec exCfg.shuffle 3 out.perm i = (i + 3 - 1) % 3 := by
+  obtain ⟨out, h⟩ := ex_ok
+  exact ⟨out, h, (partner_follows_shuffle_mode h ex_getX).2.1 (by decide) rfl⟩
 
 /-- the image item of the output batch: same slot, same extents, one image per sample, each given by
     `outImgs` -/
@@ -151,6 +207,13 @@ theorem image_mixup {cfg halves tape mode batch out h w imgs}
     rw [f.partner i hi]
     simp only [ctxWeight, lamAt, r.ctxL, r.perm, himgs]
 
+
+example : ∃ out imgs', collate exCfg exHalves exTape exMode exBatch = .ok out ∧
+    getItem exMode "x" out.batch = some (.x 4 4 imgs') ∧ imgs'.length = 3 := by
+  obtain ⟨out, h⟩ := ex_ok
+  obtain ⟨imgs', h1, h2, _⟩ := image_mixup h ex_getX
+  exact ⟨out, imgs', h, h1, h2⟩
+
 /-- **Cutmix image formula.** On every sample the context reports as cut-mixed the emitted image is `x_i`
     with one box of `x_p(i)` pasted: the box lies inside the image, pixels inside it are the partner's,
     pixels outside are the sample's own, and the retained pixel fraction `1 - area/(h·w)` is exactly the
@@ -192,6 +255,13 @@ theorem image_cutmix {cfg halves tape mode batch out h w imgs}
     · have : ctxWeight cfg out i = lamAt cfg r.pl i := by simp [ctxWeight, lamAt, r.ctxL]
       rw [this, hlam, ← hh, ← hw]
       rfl
+
+
+example : ∃ out imgs', collate exCfg exHalves exTape exMode exBatch = .ok out ∧
+    getItem exMode "x" out.batch = some (.x 4 4 imgs') := by
+  obtain ⟨out, h⟩ := ex_ok
+  obtain ⟨imgs', h1, _, _⟩ := image_cutmix h ex_getX ex_tapeOk ex_totalP
+  exact ⟨out, imgs', h, h1⟩
 
 /-- the label item of the output batch for a 2-d label tensor -/
 theorem out_labels_cls2 {cfg halves tape mode batch out rows} (r : Run cfg halves tape mode batch out)
@@ -242,6 +312,13 @@ theorem label_formula {cfg halves tape mode batch out rows}
   rw [outRows_getD cfg r.pl rows i hi, f.idxY_eq, f.partner i (hlen ▸ hi)]
   simp only [ctxWeight, lamAt, r.ctxL, r.perm, hlen]
 
+
+example : ∃ out rows', collate exCfg exHalves exTape exMode exBatch = .ok out ∧
+    getItem exMode "class" out.batch = some (.cls2 rows') ∧ rows'.length = 3 := by
+  obtain ⟨out, h⟩ := ex_ok
+  obtain ⟨rows', h1, h2, _⟩ := label_formula h ex_classMode ex_getY
+  exact ⟨out, rows', h, h1, h2⟩
+
 /-- **The weight reported in the context is a proper mixing weight**: it lies in `[0, 1]` for every
     sample (Beta draw for mixup, retained area fraction for cutmix). -/
 theorem ctx_weight_range {cfg halves tape mode batch out h w imgs}
@@ -266,6 +343,12 @@ theorem ctx_weight_range {cfg halves tape mode batch out h w imgs}
     simp only at hb
     rw [hlam]
     exact adjLam_range r.h r.w _ hb.2.1 hb.2.2.2
+
+
+example : ∃ out, collate exCfg exHalves exTape exMode exBatch = .ok out ∧
+    ∀ i, i < 3 → 0 ≤ ctxWeight exCfg out i ∧ ctxWeight exCfg out i ≤ 1 := by
+  obtain ⟨out, h⟩ := ex_ok
+  exact ⟨out, h, fun i hi => ctx_weight_range h ex_getX ex_tapeOk ex_totalP i hi⟩
 
 /-- **Label rows stay on the simplex.** If every input row is non-negative and sums to one (one-hot rows in
     particular) and all rows have the same width, every emitted row is non-negative and sums to one. -/
@@ -295,6 +378,9 @@ theorem labels_convex {cfg halves tape mode batch out rows} {C : Nat}
   · exact mixRow_nonneg _ w0 w1 _ _ hyi.2.1 hyp.2.1
   · rw [mixRow_sum _ _ _ hl, hyi.2.2, hyp.2.2]
     grind
+
+
+example : ∀ y ∈ exRows, y.length = 2 ∧ (∀ v ∈ y, (0 : Rat) ≤ v) ∧ y.sum = 1 := by decide +kernel
 
 /-- **Binary (scalar) labels.** A 1-d label tensor with entries in `[0,1]` comes back as a 1-d tensor with
     `y'_i = w·y_i + (1-w)·y_p(i)` (same weight and partner as the image), again inside `[0,1]`. -/
@@ -377,6 +463,12 @@ theorem label_formula_binary {cfg halves tape mode batch out ys}
     have rp := hrange _ (getD_mem ys _ 0 hp)
     exact ⟨rfl, convex_nonneg _ _ _ w0 w1 ri.1 rp.1, convex_le_one _ _ _ w0 w1 ri.2 rp.2⟩
 
+
+/-- a 1-d label batch that passes the `[0,1]` assertion and is collated -/
+example : (match collate exCfg exHalves exTape exMode [.other 7, .x 4 4 exImgs, .cls1 [0, 1, 1/2]] with
+    | .ok o => (match getItem exMode "class" o.batch with | some (.cls1 ys) => ys.length == 3 | _ => false)
+    | .error _ => false) = true := by decide +kernel
+
 /-- **Everything else passes through, layout preserved.** The output batch has as many items as the input
     batch, in the same order; every item whose mode entry is neither `x` nor `class` (index, …) is the
     input item. -/
@@ -420,6 +512,13 @@ theorem passthrough {cfg halves tape mode batch out}
     rw [getElem?_setItem]
     simp [hkx k hk]
 
+
+example : ∃ out, collate exCfg exHalves exTape exMode exBatch = .ok out ∧ out.batch.length = 3 ∧
+    out.batch[0]? = exBatch[0]? := by
+  obtain ⟨out, h⟩ := ex_ok
+  obtain ⟨h1, h2⟩ := passthrough h
+  exact ⟨out, h, h1, h2 0 (by decide) (by decide)⟩
+
 /-- **The uninitialised `torch.empty` lambdas are never selected** (lamb_mode=sample): with the constructor's
     `total_p = 1` a sample is flagged cut-mix only if `cutmix_p > 0` and flagged mixup only if `mixup_p > 0`
     (`hsum0`: adding `0.0` is exact in float arithmetic, so `mixup_p = 0` forces `cutmix_p = total_p`). -/
@@ -438,6 +537,9 @@ theorem empty_never_selected (v totalP cutmixP mixupP : Rat) (hv : 0 ≤ v ∧ v
     · have := hsum0 hz
       grind
     · grind
+
+
+example : (0 : Rat) ≤ 1/4 ∧ (1/4 : Rat) < 1 ∧ ((0 : Rat) = 0 → (1 : Rat) = 1) := by decide +kernel
 
 /-- the constructor only lets configurations with `total_p = 1` through (everything else is an assertion
     or `NotImplementedError`), so `0 ≤ cfg.totalP` in the theorems above is no restriction -/
@@ -476,32 +578,5 @@ theorem ctor_total_p (a : CtorArgs) (cfg : Cfg) (h : ctor a = .ok cfg) : cfg.tot
 
 example : (match ctor ⟨some (1/2), some (1/2), some (4/5), some 1, 1, some .batch, some .sample, some .roll⟩ with
     | .ok c => c.totalP == 1 | .error _ => false) = true := by decide +kernel
-
-/-! ### non-vacuity: a concrete successful call with mixed cut-mix / mixup flags (lamb_mode=sample, roll) -/
-
-def exCfg : Cfg := ⟨1/2, 1/2, 1, some (4/5), some 1, .batch, .sample, .roll⟩
-def exImg (s : Nat) : Img := fun c r k => ((s * 1000 + c * 100 + r * 10 + k : Nat) : Rat)
-def exBatch : List Item := [.other 7, .x 4 4 [exImg 0, exImg 1, exImg 2], .cls2 [[1, 0], [0, 1], [1, 0]]]
-def exTape : Tape :=
-  [.unif (1/10), .unifs [1/4, 3/4, 1/3], .betas (4/5) [1/5, 2/5, 3/5], .betas 1 [1/2, 1/2, 1/2],
-   .ints 4 [1, 2, 3], .ints 4 [0, 1, 2]]
-def exHalves : List (Nat × Nat) := [(1, 1), (1, 1), (1, 1)]
-
-/-- the call succeeds, sample 0 and 2 are cut-mixed, sample 1 is mixed up, and the reported weights are the
-    retained fractions `7/8`, the Beta draw `2/5`, and `3/4` -/
-example : (match collate exCfg exHalves exTape ["index", "x", "class"] exBatch with
-    | .ok o => o.ctxUseCutmix == [true, false, true] && o.ctxLambda == [7/8, 2/5, 3/4] && o.perm == none
-    | .error _ => false) = true := by decide +kernel
-
-example : TapeOk exTape := by
-  intro d hd
-  simp only [exTape, List.mem_cons, List.not_mem_nil, or_false] at hd
-  rcases hd with h | h | h | h | h | h <;> subst h <;> simp only [Draw.Ok, List.mem_cons, List.not_mem_nil, or_false]
-  · constructor <;> grind
-  · intro v hv; rcases hv with h | h | h <;> subst h <;> constructor <;> grind
-  · intro v hv; rcases hv with h | h | h <;> subst h <;> constructor <;> grind
-  · intro v hv; rcases hv with h | h | h <;> subst h <;> constructor <;> grind
-  · intro v hv; omega
-  · intro v hv; omega
 
 end KDVerif.C10
